@@ -31,6 +31,8 @@ Verdict(ev) ==
          ELSE IF ~ev.imgscaleok THEN "images-not-scale-invariant"
          ELSE IF ~ev.evalok THEN "evaluate-differs-from-the-functions-it-bundles"
          ELSE "ok"
+    [] ev.kind = "imgscale" ->       \* the property's wording taken literally for the image metrics: ALL four unchanged when ONE source is rescaled
+         IF ~ev.imgfullok THEN "image-sdr-isr-change-when-one-source-is-rescaled" ELSE "ok"
     [] ev.kind = "equiv" ->
          IF ~IsPerm(ev.perm2, ev.n) THEN "not-a-permutation"
          ELSE IF \E j \in 1..ev.n : ev.perm2[j] # Inverse(ev.pi, ev.n)[ev.perm[j]] THEN "does-not-follow-reordering" ELSE "ok"
